@@ -205,6 +205,7 @@ def check_asm(item):
         if ops != want_ops:
             bad.append('instructions emitted %r, source %r' % (ops, want_ops))
         diffs, names = [], []
+        unwarned, unwarned_names = [], []
         for ln, is_ins, comment in info:
             n = len(ln)
             lo, hi = rng(lw)
@@ -228,6 +229,9 @@ def check_asm(item):
                     rest = comment[len(first):].strip()
                     if len(rest.split()) > 1 or not any(first == r for r, _ in c['regs']):
                         diffs.append(toolong); names.append('comment line of %d characters holding several words: %r' % (n, ln[:70]))
+                if not any(ln in w_ for w_ in wr):
+                    # the property asks for a warning whenever a line is longer than the width (decided separately: known finding)
+                    unwarned.append(toolong); unwarned_names.append('comment line of %d characters without a warning: %r' % (n, ln[:70]))
         if bad:
             r, mod = p.check(model=True); which = bad
         else:
@@ -238,6 +242,16 @@ def check_asm(item):
             v = {str(x): mod[x].as_long() for x in mod.decls() if hasattr(mod[x], 'as_long')}
             res['violations'].append(dict(key='%s:%s' % (name, which[0][:40]), text='%s with %r: %s' % (name, v, '; '.join(which[:3])), case=dict(kind='asm', ci=ci, param=param, vals=v)))
             return
+        if unwarned:
+            res['obligations'] += 1
+            r2, mod2, which2 = p.check_any(unwarned, unwarned_names)
+            if r2 == 'unknown':
+                res['inconclusive'].append(name); return
+            if r2 == 'sat':
+                v = {str(x): mod2[x].as_long() for x in mod2.decls() if hasattr(mod2[x], 'as_long')}
+                res['violations'].append(dict(key='skool2asm: comment line over the width without a warning', text='%s with %r: %s' % (name, v, which2[0]), case=dict(kind='asm', ci=ci, param=param, vals=v, warn_only=True)))
+                return
+            res['discharged'] += 1
         res['discharged'] += 1
         res['nontrivial'] += 1
         if len(res['samples']) < 1:
@@ -492,6 +506,8 @@ def replay(case):
                     bad.append('instruction line of %d > %d characters whose comment could have been wrapped: %r' % (len(ln), lw, ln[:60]))
                 if not is_ins and len(comment.split()) > 2:
                     bad.append('comment line of %d > %d characters with several words: %r' % (len(ln), lw, ln[:60]))
+                if not is_ins and case.get('warn_only') and not any(ln in x for x in warns):
+                    bad.append('comment line of %d > %d characters without a warning: %r' % (len(ln), lw, ln[:60]))
         return bool(bad), '; '.join(dict.fromkeys(bad)) or 'output respects the width and keeps every word'
     finally:
         import shutil
